@@ -3,4 +3,5 @@ package props
 
 import (
 	_ "verif/htlab/internal/props/c01"
+	_ "verif/htlab/internal/props/c02"
 )
